@@ -37,6 +37,7 @@ from pynguin.testcase.execution_isolation import (
     OutputSuppressionContext,
     PatchRandomOnUnpickle,
     _make_deterministic,
+    preserve_logging_state,
     suppress_logging,
 )
 from pynguin.testcase.execution_observers import (
@@ -432,6 +433,7 @@ class TestCaseExecutor(AbstractTestCaseExecutor):
             self._before_test_case_execution(test_case)
             result = ExecutionResult()
             with (
+                preserve_logging_state(),
                 FilesystemIsolation(),
                 output_suppression_context,
                 self._subject_properties.instrumentation_tracer,
